@@ -201,7 +201,7 @@ def _mk_cmd(attr, acc):
 
 
 def _export(attr, acc):
-    w = acc['wire']
+    w = acc.get('cls_wire', acc['wire'])      # cls_wire: exported by the class, hidden by the configuration
     if w == '':
         return False
     from frappy.params import PREDEFINED_ACCESSIBLES
@@ -321,7 +321,8 @@ class World:
         for mname, accs in shape.items():
             cls = build_class(accs, (bases or {}).get(mname, 'Module'))
             first = first or cls
-            self.mods[mname] = self._add(cls, mname, {})
+            self.mods[mname] = self._add(cls, mname, {a: {'export': False} for a, acc in accs.items()
+                                                      if 'cls_wire' in acc})
         self.hidden = self._add(first, 'h', {'export': False})
         self.conn = Conn('c1', self.srv.dispatcher)
         handle(self.srv.dispatcher, self.conn, ('activate', None, None))
@@ -462,6 +463,8 @@ def signature(world_shape, req, bad, obs, cur_cache, module='Dispatch'):
     dt = 'none'
     cur = None
     flags = 'unknown-name'
+    if any(x.get('cls_wire') == req['name'] for x in world_shape.get(req['mod'], {}).values()):
+        flags = 'cfg-hidden'
     if acc:
         a, x = acc
         dt = (x['dt'] if x['kind'] == 'param' else x['arg'])['t']
@@ -670,6 +673,10 @@ def rand_shape(rnd):
             accs[attr] = {'kind': 'cmd', 'wire': auto if r < 0.75 else ('' if r < 0.9 else 'y_' + attr),
                           'arg': {'t': 'none'} if rnd.random() < 0.3 else rand_dt(rnd),
                           'ret': num(rnd.randint(0, 5)) if rnd.random() < 0.5 else NULL}
+        cand = [a for a, x in accs.items() if x['wire'] and not x.get('islimit')]
+        if cand and rnd.random() < 0.3:      # hidden by the configuration: <attr> = Param(export=False)
+            x = accs[rnd.choice(cand)]
+            x['cls_wire'], x['wire'] = x['wire'], ''
         shape[mname] = accs
     return shape
 
@@ -689,7 +696,7 @@ def rand_request(rnd, shape, cache):
     m = rnd.choice(mods)
     a = rnd.choice(list(shape[m]))
     acc = shape[m][a]
-    name = acc['wire'] if acc['wire'] and rnd.random() < 0.93 else rnd.choice([a, 'nope'])
+    name = acc['wire'] if acc['wire'] and rnd.random() < 0.93 else rnd.choice([a, 'nope', acc.get('cls_wire', a)])
     q = rnd.random()
     if acc['kind'] == 'param':
         act = 'read' if q < 0.12 else 'do' if q < 0.16 else 'change'
